@@ -60,9 +60,6 @@ def register(reg):
 def _register_dim(reg, d):
     tag = f"<d={d}>"
 
-    def grid_wf(ctx, g):
-        return And(gdim(ctx, g) == d, *[nphys(ctx, g, k) >= 1 for k in range(d)])
-
     # abstract properties of StructuredGrid as views of the ghost description
     def prop(name, fn, ty=None):
         reg.add(Contract(f"{SG}.{name}", self_cls="StructuredGrid", pure=True, verify=False, result_fn=fn, name=f"{name}{tag}",
@@ -92,54 +89,82 @@ def _register_dim(reg, d):
     def data_arr(name, extra=0):
         return arr.fresh_arr(name, d + extra, "real")
 
-    # ------------------------------------------------------------------ to_canonical
-    def tc_bad(ctx):
-        g = ctx.self
-        a = ctx.data
-        ds = data_shape_spec(ctx.old, g, d)
-        return Not(And(*[a.shape[k] == ds[k] for k in range(d)]))
-
-    def tc_post(ctx, r):
-        g = ctx.self
-        a = ctx.data
-        cs = canon_shape(ctx, g, d)
-        c = [z3.Int(f"c{k}") for k in range(d)]
-        j = layout_index(ctx, g, d, c)
-        return And(z3.BoolVal(isinstance(r, SArr) and r.rank == d),
-                   *[r.shape[k] == cs[k] for k in range(d)],
-                   z3.ForAll(c, Implies(arr.in_box(cs, c), r.at(tuple(c)) == a.at(tuple(j)))))
-
     reg.add(Contract(
         f"{SG}.to_canonical", self_cls="StructuredGrid", props=["C15.1"], params={"data": data_arr("A")},
-        requires=lambda ctx: grid_wf(ctx, ctx.self), ensures=tc_post, modifies=lambda ctx: [], pure=True,
-        raises={"ValueError": tc_bad}, must_raise={"ValueError": tc_bad}, raise_frame_empty=True,
+        requires=lambda ctx: grid_wf(ctx, ctx.self, d), ensures=lambda ctx, r: tc_post(ctx, r, d), modifies=lambda ctx: [], pure=True,
+        raises={"ValueError": lambda ctx: tc_bad(ctx, d)}, must_raise={"ValueError": lambda ctx: tc_bad(ctx, d)}, raise_frame_empty=True,
         name=f"to_canonical{tag}", primary=False,
     ))
-
-    # ------------------------------------------------------------------ from_canonical
-    def fc_bad(ctx):
-        g = ctx.self
-        a = ctx.data
-        cs = canon_shape(ctx.old, g, d)
-        return Not(And(*[a.shape[k] == cs[k] for k in range(d)]))
-
-    def fc_post(ctx, r):
-        g = ctx.self
-        a = ctx.data
-        cs = canon_shape(ctx, g, d)
-        ds = data_shape_spec(ctx, g, d)
-        c = [z3.Int(f"c{k}") for k in range(d)]
-        j = layout_index(ctx, g, d, c)
-        return And(z3.BoolVal(isinstance(r, SArr) and r.rank == d),
-                   *[r.shape[k] == ds[k] for k in range(d)],
-                   z3.ForAll(c, Implies(arr.in_box(cs, c), r.at(tuple(j)) == a.at(tuple(c)))))
-
     reg.add(Contract(
         f"{SG}.from_canonical", self_cls="StructuredGrid", props=["C15.1"], params={"data": data_arr("A")},
-        requires=lambda ctx: grid_wf(ctx, ctx.self), ensures=fc_post, modifies=lambda ctx: [], pure=True,
-        raises={"ValueError": fc_bad}, must_raise={"ValueError": fc_bad}, raise_frame_empty=True,
+        requires=lambda ctx: grid_wf(ctx, ctx.self, d), ensures=lambda ctx, r: fc_post(ctx, r, d), modifies=lambda ctx: [], pure=True,
+        raises={"ValueError": lambda ctx: fc_bad(ctx, d)}, must_raise={"ValueError": lambda ctx: fc_bad(ctx, d)}, raise_frame_empty=True,
         name=f"from_canonical{tag}", primary=False,
     ))
+
+
+def grid_wf(ctx, g, d):
+    return And(gdim(ctx, g) == d, *[nphys(ctx, g, k) >= 1 for k in range(d)])
+
+
+# ------------------------------------------------------------------ to_canonical
+def tc_bad(ctx, d):
+    g = ctx.self
+    a = ctx.data
+    ds = data_shape_spec(ctx.old, g, d)
+    return Not(And(*[a.shape[k] == ds[k] for k in range(d)]))
+
+
+def tc_post(ctx, r, d):
+    g = ctx.self
+    a = ctx.data
+    cs = canon_shape(ctx, g, d)
+    c = [z3.Int(f"c{k}") for k in range(d)]
+    j = layout_index(ctx, g, d, c)
+    return And(z3.BoolVal(isinstance(r, SArr) and r.rank == d),
+               *[r.shape[k] == cs[k] for k in range(d)],
+               z3.ForAll(c, Implies(arr.in_box(cs, c), r.at(tuple(c)) == a.at(tuple(j)))))
+
+
+# ------------------------------------------------------------------ from_canonical
+def fc_bad(ctx, d):
+    g = ctx.self
+    a = ctx.data
+    cs = canon_shape(ctx.old, g, d)
+    return Not(And(*[a.shape[k] == cs[k] for k in range(d)]))
+
+
+def fc_post(ctx, r, d):
+    g = ctx.self
+    a = ctx.data
+    cs = canon_shape(ctx, g, d)
+    ds = data_shape_spec(ctx, g, d)
+    c = [z3.Int(f"c{k}") for k in range(d)]
+    j = layout_index(ctx, g, d, c)
+    return And(z3.BoolVal(isinstance(r, SArr) and r.rank == d),
+               *[r.shape[k] == ds[k] for k in range(d)],
+               z3.ForAll(c, Implies(arr.in_box(cs, c), r.at(tuple(j)) == a.at(tuple(c)))))
+
+
+def register_canonical_callers(reg):
+    """caller-facing contracts of to_canonical / from_canonical: the per-dimension contracts verified above (C15.1),
+    instantiated at the (concrete) rank of the array passed at the call site"""
+    def rk(ctx):
+        a = ctx.data
+        if not (isinstance(a, SArr) and a.rank in DIMS):
+            raise Unsupported(f"to/from_canonical on {a}")
+        return a.rank
+
+    for nm, post, bad in (("to_canonical", tc_post, tc_bad), ("from_canonical", fc_post, fc_bad)):
+        reg.add(Contract(
+            f"{SG}.{nm}", self_cls="StructuredGrid", params={"data": None}, verify=False,
+            requires=lambda ctx: grid_wf(ctx, ctx.self, rk(ctx)),
+            result_fn=lambda ctx: arr.fresh_arr(sv.uid("CAN"), rk(ctx), "real"),
+            ensures=lambda ctx, r, post=post: post(ctx, r, rk(ctx)), modifies=lambda ctx: [], pure=True,
+            raises={"ValueError": lambda ctx, bad=bad: bad(ctx, rk(ctx))}, must_raise={"ValueError": lambda ctx, bad=bad: bad(ctx, rk(ctx))},
+            raise_frame_empty=True, name=nm,
+            note="caller-facing instance of the per-dimension contracts verified for d=1..3",
+        ))
 
 
 PROPS = {}
@@ -180,6 +205,22 @@ def install(ex):
             raise Unsupported("np.flip with symbolic axis", node)
         return arr.flip(a, k.as_long())
 
+    def np_allclose(ex, path, args, kwargs, node):
+        a, b = args[0], args[1]
+        if isinstance(a, SArr) and isinstance(b, SArr) and a.rank == 1 and b.rank == 1:
+            # numpy: all(|a - b| <= atol + rtol * |b|) with the default tolerances (shapes broadcast: equal lengths here)
+            na, nb = a.shape[0], b.shape[0]
+            ex.safe(path, "broadcast", Or(na == nb, na == 1, nb == 1), node)   # ValueError: operands could not be broadcast
+            i = z3.Int(sv.uid("ac"))
+            n = If(na >= nb, na, nb)
+            ai = a.at((If(na == 1, z3.IntVal(0), i),))
+            bi = b.at((If(nb == 1, z3.IntVal(0), i),))
+            return sv.SBool(z3.ForAll([i], Implies(And(0 <= i, i < n), rabs(ai - bi) <= ATOL + RTOL * rabs(bi))))
+        raise Unsupported(f"np.allclose({a}, {b})", node)
+
+    ex.ext_models["numpy.allclose"] = np_allclose
+    ex.pure_ext.add("np.allclose")
+
     for nm, fn in (("shape", np_shape), ("ndim", np_ndim), ("array_equal", np_array_equal), ("transpose", np_transpose), ("flip", np_flip)):
         ex.ext_models[f"numpy.{nm}"] = fn
         ex.pure_ext.add(f"np.{nm}")
@@ -197,6 +238,7 @@ def install(ex):
         return None
 
     ex.hooks.setdefault("getattr_ref", []).append(sg_props)
+    install_eq(ex)
 
 
 # =================================================================================================
@@ -267,10 +309,169 @@ _reg_base = register
 def register(reg):  # noqa: F811
     _reg_base(reg)
     register_memo(reg)
+    register_compat(reg)
+    register_eq_transform(reg)
+    register_canonical_callers(reg)
 
 
 _BG = {"name": "grid-layouts", "script": "replay/drivers/bnd_grids.py", "args": ["--json"], "timeout": 3000}
 BOUNDED = {"C14": [_BG], "C15": [_BG]}
-REPLAY = {f"{SG}.to_canonical": "bnd_grids.py", f"{SG}.from_canonical": "bnd_grids.py",
+REPLAY = {f"{SG}.compatible_with": "grid_compat.py", f"{SG}.to_canonical": "bnd_grids.py", f"{SG}.from_canonical": "bnd_grids.py",
           "finam.data.grid_spec.RectilinearGrid.data_shape": "bnd_grids.py", "finam.data.grid_spec.RectilinearGrid.data_size": "bnd_grids.py",
           "finam.data.grid_spec.RectilinearGrid.data_location.setter": "bnd_grids.py"}
+
+
+# =================================================================================================
+# compatible_with / __eq__ / get_transform_to of StructuredGrid (C15.2, C15.3)
+# =================================================================================================
+AX = z3.Function("axis_value", sv.IntS, sv.IntS, sv.IntS, sv.RealS)     # coordinate i of axis k of a grid (increasing, normalised)
+NPTS = z3.Function("axis_points", sv.IntS, sv.IntS, sv.IntS)            # number of points of axis k
+RTOL, ATOL = z3.RealVal("1e-5"), z3.RealVal("1e-8")
+
+
+def rabs(x):
+    return If(x >= 0, x, -x)
+
+
+def axis_arr(g_e, k):
+    return SArr((NPTS(g_e, z3.IntVal(k)),), lambda idx, g_e=g_e, k=k: AX(g_e, z3.IntVal(k), idx[0]), "real", ident=f"axis{k}({g_e})")
+
+
+def register_compat(reg):
+    for d in DIMS:
+        _register_compat(reg, d)
+
+
+def _register_compat(reg, d):
+    tag = f"<d={d}>"
+    reg.field("$crs", TObj("crs")) if d == 1 else None
+
+    PROPS[d]["axes"] = lambda ctx: sv.STup([axis_arr(ctx.self.e, k) for k in range(d)])
+    PROPS[d]["crs"] = lambda ctx: ctx.get(ctx.self, "$crs")
+    PROPS[d]["data_location"] = lambda ctx: ctx.get(ctx.self, "_data_location")
+    PROPS[d]["dim"] = lambda ctx: sv.SInt(gdim(ctx, ctx.self))
+
+    def wf(ctx, g):
+        """a well-formed structured grid of dimension d: axes strictly increasing, data sizes follow location"""
+        i, j = z3.Int("wi"), z3.Int("wj")
+        loc = ctx.get(g, "_data_location").e
+        parts = [gdim(ctx, g) == d]
+        for k in range(d):
+            K = z3.IntVal(k)
+            npk = NPTS(g.e, K)
+            parts += [npk >= 2,   # non-degenerate axes (a single-point axis has no spacing; covered by the bounded stand-in)
+                      z3.ForAll([i, j], Implies(And(0 <= i, i < j, j < npk), AX(g.e, K, i) < AX(g.e, K, j))),
+                      # cells: max(points - 1, 1); points: points
+                      nphys(ctx, g, k) == If(loc == 0, If(npk - 1 >= 1, npk - 1, z3.IntVal(1)), npk)]
+        return And(*parts)
+
+    def same_layout_flags(ctx, g, o):
+        return And(rev(ctx, g) == rev(ctx, o), *[inc(ctx, g, k) == inc(ctx, o, k) for k in range(d)])
+
+    def cw_post(ctx, r):
+        g, o = ctx.self, ctx.other
+        i, j = z3.Int("ci"), z3.Int("cj")
+        same_meta = And(gdim(ctx, o) == d, sv.value_eq(ctx.get(g, "$crs"), ctx.get(o, "$crs")),
+                        Or(Not(ctx.check_location.e), ctx.get(g, "_data_location").e == ctx.get(o, "_data_location").e))
+        exact = And(*[And(NPTS(g.e, z3.IntVal(k)) == NPTS(o.e, z3.IntVal(k)),
+                          z3.ForAll([i], Implies(And(0 <= i, i < NPTS(g.e, z3.IntVal(k))), AX(g.e, z3.IntVal(k), i) == AX(o.e, z3.IntVal(k), i))))
+                      for k in range(d)])
+        near = And(*[And(NPTS(g.e, z3.IntVal(k)) == NPTS(o.e, z3.IntVal(k)),
+                         z3.ForAll([i, j], Implies(And(0 <= i, i < NPTS(o.e, z3.IntVal(k)), 0 <= j, j + 1 < NPTS(o.e, z3.IntVal(k))),
+                                                   rabs(AX(g.e, z3.IntVal(k), i) - AX(o.e, z3.IntVal(k), i)) * 2
+                                                   <= AX(o.e, z3.IntVal(k), j + 1) - AX(o.e, z3.IntVal(k), j))))
+                     for k in range(d)])
+        return {
+            "same-locations=>compatible": Implies(And(same_meta, exact, ctx.check_location.e), r.e),
+            "compatible=>same-kind": Implies(r.e, same_meta),
+            "compatible=>within-half-a-cell": Implies(And(r.e, ctx.check_location.e), near),
+        }
+
+    reg.add(Contract(
+        f"{SG}.compatible_with", self_cls="StructuredGrid", props=["C15.3"],
+        params={"other": TRef("StructuredGrid"), "check_location": Bool}, result=Bool,
+        requires=lambda ctx: And(wf(ctx, ctx.self), Implies(gdim(ctx, ctx.other) == d, wf(ctx, ctx.other)), ctx.other.e > 0,
+                                 ctx.check_location.e),   # finam only calls it with check_location=True (the default)
+        ensures=cw_post, modifies=lambda ctx: [], pure=True, name=f"compatible_with{tag}", primary=False,
+    ))
+
+
+def register_eq_transform(reg):
+    reg.static_dispatch.add("StructuredGrid")
+    GC = z3.Function("grid_compatible", sv.IntS, sv.IntS, sv.BoolS)
+    GEQ = z3.Function("grid_equal", sv.IntS, sv.IntS, sv.BoolS)
+
+    # caller-facing names of the two relations (their properties are what the per-dimension units verify)
+    reg.add(Contract(f"{SG}.compatible_with", self_cls="StructuredGrid", params={"other": TRef("StructuredGrid"), "check_location": Bool},
+                     pure=True, verify=False, result_fn=lambda ctx: sv.SBool(GC(ctx.self.e, ctx.other.e)),
+                     note="GC(a,b) names the answer of a.compatible_with(b); its properties are verified per dimension (C15.3)"))
+
+    for d in DIMS:
+        tag = f"<d={d}>"
+
+        def flags_equal(ctx, g, o, d=d):
+            return And(rev(ctx, g) == rev(ctx, o), *[inc(ctx, g, k) == inc(ctx, o, k) for k in range(d)])
+
+        reg.add(Contract(
+            f"{SG}.__eq__", self_cls="StructuredGrid", props=["C15.3"], params={"other": TRef("StructuredGrid")}, result=Bool,
+            requires=lambda ctx, d=d: And(gdim(ctx, ctx.self) == d, ctx.other.e > 0),
+            ensures=lambda ctx, r, fe=flags_equal: r.e == And(GC(ctx.self.e, ctx.other.e), fe(ctx, ctx.self, ctx.other)),
+            modifies=lambda ctx: [], pure=True, name=f"__eq__{tag}", primary=False,
+        ))
+
+        def gt_bad(ctx):
+            return Not(GC(ctx.self.e, ctx.other.e))
+
+        def gt_post(ctx, r, d=d, flags_equal=flags_equal):
+            g, o = ctx.self, ctx.other
+            same = And(GC(g.e, o.e), flags_equal(ctx, g, o))
+            if isinstance(r, sv.SNone):
+                return {"none-iff-equal-layout": same}
+            if not (isinstance(r, sv.SPy) and r.what == "closure"):
+                return {"result-kind": z3.BoolVal(False)}
+            # apply the returned transformation to an arbitrary array in the source layout
+            A = arr.fresh_arr(sv.uid("TA"), d, "real", shape=tuple(data_shape_spec(ctx, g, d)))
+            c = [z3.Int(f"tc{k}") for k in range(d)]
+            cs = canon_shape(ctx, g, d)
+            js, jo = layout_index(ctx, g, d, c), layout_index(ctx, o, d, c)
+            ods = data_shape_spec(ctx, o, d)
+            located, no_raise = [], []
+            for kind, cond, B in ctx.ex.closure_outcomes(r, [A], ctx.path):
+                if kind != "return":
+                    no_raise.append(Not(cond))
+                    continue
+                located.append(Implies(cond, And(z3.BoolVal(isinstance(B, SArr) and B.rank == d),
+                                                 *[B.shape[k] == ods[k] for k in range(d)],
+                                                 z3.ForAll(c, Implies(arr.in_box(cs, c), B.at(tuple(jo)) == A.at(tuple(js)))))
+                                       if isinstance(B, SArr) and B.rank == d else Not(cond)))
+            return {
+                "none-iff-equal-layout": Not(same),
+                "transform-accepts-source-layout": And(*no_raise),
+                "located-values": And(*located),
+            }
+
+        def gt_pre(ctx, d=d):
+            g, o = ctx.self, ctx.other
+            # compatible grids of one geometry: same physical sizes (consequence of C15.3 "compatible => same kind / shape")
+            return And(gdim(ctx, g) == d, gdim(ctx, o) == d, o.e > 0,
+                       *[And(nphys(ctx, g, k) >= 1, Implies(GC(g.e, o.e), nphys(ctx, o, k) == nphys(ctx, g, k))) for k in range(d)])
+
+        reg.add(Contract(
+            f"{SG}.get_transform_to", self_cls="StructuredGrid", props=["C15.2"], params={"other": TRef("StructuredGrid")},
+            requires=gt_pre, ensures=gt_post, modifies=lambda ctx: [], pure=True,
+            raises={"ValueError": gt_bad}, must_raise={"ValueError": gt_bad}, raise_frame_empty=True,
+            name=f"get_transform_to{tag}", primary=False,
+        ))
+
+
+def install_eq(ex):
+    def grid_eq(ex, a, b, path, node):
+        if isinstance(a, sv.SRef) and isinstance(b, sv.SRef) and a.cls == "StructuredGrid" and b.cls == "StructuredGrid":
+            ci = ex.repo.cls("StructuredGrid")
+            fi = ex.repo.lookup_method(ci, "__eq__")
+            a2 = sv.SRef(a.e, "StructuredGrid", True)
+            r = ex.call_function(fi, [a2, b], {}, path, node, self_ref=a2)
+            return ex.truthy(r, path)
+        return None
+
+    ex.hooks.setdefault("eq", []).append(grid_eq)
